@@ -104,7 +104,7 @@ RULE = (
 )
 TRUSTED_BASE = [
     "C++ semantics of the emitted statement subset (lean/FaxVerif/Cpp/Sem.lean) and Python/LINQ semantics of queries (lean/FaxVerif/Linq/Query.lean): written by hand, validated against each other through the real translator on every run; doubles are abstract in the theorems (all number models), the driver runs with Lean's Float",
-    "tools/cparse.py (emitted text -> AST), tools/gentie.py canonicalisation (bijective renaming of declared identifiers, value of floating literals)",
+    "tools/cparse.py (emitted text -> AST — compared on every program of every run with the Lean parser Cpp/Parse.lean, whose round trip with the printer is the theorem C02.parse_render (stream parse-tie: equal trees required)), tools/gentie.py canonicalisation (bijective renaming of declared identifiers, value of floating literals)",
     "func_adl's normalisations (aggregate shortcuts, chained-call simplification) are inside the real pipeline under test, not modelled: the theorems are about the model of their composition with the translator",
 ]
 ASSUMPTIONS = [
